@@ -88,7 +88,10 @@ def run(res, tier, replay):
                 for _ in range(4): b[rng.randrange(len(b) * 3 // 4, len(b))] ^= 0x55
                 open(bp, "wb").write(bytes(b))
                 r = subprocess.run([exe, "-t", bp], capture_output=True, env=env, timeout=60); nruns += 1
-                failed = "failed" in r.stdout.decode("latin1") or r.stderr
+                # what counts as a failure: a member line saying "failed", or a complaint on stderr other than the warning that a
+                # neighbouring cabinet named in the header is not on disk (the generator names neighbours in a fifth of the cabinets)
+                complaints = [l for l in r.stderr.decode("latin1").split("\n") if l.strip() and not re.search(r": can't find \S+$", l)]
+                failed = "failed" in r.stdout.decode("latin1") or bool(complaints)
                 if (r.returncode == 0) == bool(failed): bad("exit status %d although %s" % (r.returncode, "a member failed" if failed else "nothing failed"), "damaged copy of a.cab: %s" % bytes(b).hex()[:200], "c17:exit")
                 # the other modes decode the same members: they must fail (exit status) exactly when the test mode does
                 rp = subprocess.run([exe, "-p", "-q", bp], capture_output=True, env=env, timeout=60); nruns += 1
